@@ -229,3 +229,114 @@ Example C07_ex_generated :
   map (fun ops => outcome_of (GuardsTaskProofs.gen_ops ops)) [[120; 120]; [120; 114]; [112]; [120; 101; 101]; [120; 112; 101]]
   = [Reject; Reject; Reject; Reject; Reject].
 Proof. vm_compute. split; reflexivity. Qed.
+
+(* ==== task event handlers from source (unit taskev) ==== *)
+(* Gen/TaskNosv_gen.v and Gen/TaskNanos6_gen.v (translate/units/taskev.py) render pre_task, create_task, update_task,
+   update_task_state, update_task_ss_channel, expand_transition_value (its out parameter as the returned value),
+   update_task_channels, enforce_task_rules and chan_body_stopped / chan_body_running / chan_body_switch
+   (chan_task_* for Nanos6) of nosv/event.c and nanos6/event.c, with body_get_id / body_get_task / body_get_state
+   (body.c) and task_is_parallel / task_get_running (task.c), over the world of Emu/TaskEvPre.v.  There task_execute
+   ... task_end and body_get_running ARE the functions of Gen/Guards_gen.v (C07_body_task_from_source), chan_set /
+   chan_push / chan_pop ARE chan_step (C08_chan_ops_from_source).
+   nOS-V: pre_task on VTx / VTe / VTp / VTr = EmuCoreDefs.task_event with nosv_cfg (same accepted state and
+   written channels, or both refuse), through the pieces below (TaskEvProofs.m_state = lookup, body id rule, task_op;
+   the subsystem channel; the nested-transition value; the three channel functions as the write sequences that
+   task_event performs, reading task / body / process fields in the state current at each write; enforce_task_rules),
+   and create_task = task_create.  In the nested transitions (x over a running body, e uncovering one) the C compares
+   the two body pointers and the model their (task id, body id): equal, because both lookups are first-match lookups
+   by id and an accepted task_op replaces one body in place or appends one (TaskEvProofs.ptr_ids).  When the
+   model refuses the C refuses too and does not dereference NULL: chan_body_running / enforce_task_rules are only
+   reached with the running body an accepted execute / resume leaves on top of the stack (TaskEvProofs.run_after).
+   Nanos6 likewise (C07_task_events_nanos6_from_source: nanos6_cfg, body id always 1, no app id test, no body id
+   channel; the C compares the two task pointers, the model their ids). *)
+From OV Require Emu.TaskEvPre Gen.TaskNosv_gen Gen.TaskNanos6_gen Proofs.TaskEvProofs.
+Theorem C07_task_events_from_source : forall sx cs who me, nth_error (s_threads sx) who = Some me ->
+  forall st th v p, nth_error (threads st) who = Some th -> TaskEvProofs.kinds v -> (8 <= length p)%nat ->
+  let E := {| TaskEvPre.te_sx := sx; TaskEvPre.te_cs := cs |} in
+  match task_event sx st who (DecodeDefs.nosv_cfg cs) DecodeDefs.M_NOSV v (DecodeDefs.le_u32 p 0) (DecodeDefs.le_u32 p 4) with
+  | Ok (st', d) => TaskNosv_gen.pre_task (TaskEvProofs.mk who DecodeDefs.M_NOSV v p) E (TaskEvProofs.W st []) = Ok (tt, TaskEvProofs.W st' d)
+  | Err _ => exists e', TaskNosv_gen.pre_task (TaskEvProofs.mk who DecodeDefs.M_NOSV v p) E (TaskEvProofs.W st []) = Err e' /\
+                        e' <> TaskEvPre.E_TRAP
+  end.
+Proof. exact TaskEvProofs.nosv_task_events. Qed.
+Print Assumptions C07_task_events_from_source.
+
+(* the pieces *)
+Theorem C07_task_state_from_source : forall sx cs who me, nth_error (s_threads sx) who = Some me ->
+  forall st th v p d, nth_error (threads st) who = Some th -> TaskEvProofs.kinds v -> (8 <= length p)%nat ->
+  let E := {| TaskEvPre.te_sx := sx; TaskEvPre.te_cs := cs |} in
+  match TaskEvProofs.m_state who me st th true DecodeDefs.M_NOSV v (DecodeDefs.le_u32 p 0) (DecodeDefs.le_u32 p 4) with
+  | Ok s1 => TaskNosv_gen.update_task_state (TaskEvProofs.mk who DecodeDefs.M_NOSV v p) E (TaskEvProofs.W st d) = Ok (tt, TaskEvProofs.W s1 d)
+  | Err _ => exists e', TaskNosv_gen.update_task_state (TaskEvProofs.mk who DecodeDefs.M_NOSV v p) E (TaskEvProofs.W st d) = Err e' /\
+                        e' <> TaskEvPre.E_TRAP
+  end.
+Proof. exact TaskEvProofs.nosv_state_eq. Qed.
+Print Assumptions C07_task_state_from_source.
+
+(* chan_body_running: the three refusals (task id 0, type gid 0, app id <= 0), then the writes of body id, task id,
+   type gid, app id and - for a process with a rank - rank + 1, in this order *)
+Theorem C07_task_channels_from_source : forall sx cs who me, nth_error (s_threads sx) who = Some me ->
+  forall v p i j w,
+  let E := {| TaskEvPre.te_sx := sx; TaskEvPre.te_cs := cs |} in
+  TaskNosv_gen.chan_body_running (TaskEvProofs.mk who DecodeDefs.M_NOSV v p) (Some (i, j)) E w =
+  (if (TaskEvPre.get_task_id E w (Some (TaskEvPre.TaskAt i)) =? 0) then Err TaskEvPre.E_FAIL
+   else if (TaskEvPre.get_task_type_gid E w (Some (TaskEvPre.TaskAt i)) =? 0) then Err TaskEvPre.E_FAIL
+   else if (ti_appid (TaskEvPre.tinfo E who) <=? 0) then Err TaskEvPre.E_FAIL
+   else TaskEvProofs.seqF who DecodeDefs.M_NOSV (TaskEvProofs.nosv_ws sx cs who (Some (i, j)) (Some (TaskEvPre.TaskAt i))) E w) /\
+  TaskNosv_gen.chan_body_stopped (TaskEvProofs.mk who DecodeDefs.M_NOSV v p) E w =
+  TaskEvProofs.seqF who DecodeDefs.M_NOSV (TaskEvProofs.nosv_null_ws sx cs who) E w /\
+  forall bp, TaskNosv_gen.chan_body_switch (TaskEvProofs.mk who DecodeDefs.M_NOSV v p) bp (Some (i, j)) E w =
+  (if CInt.is_null bp then Err TaskEvPre.E_FAIL else if TaskEvPre.ptr_eqb_body bp (Some (i, j)) then Err TaskEvPre.E_FAIL
+   else if (TaskEvPre.get_task_id E w (Some (TaskEvPre.TaskAt i)) =? 0) then Err TaskEvPre.E_FAIL
+   else if (TaskEvPre.get_task_type_gid E w (Some (TaskEvPre.TaskAt i)) =? 0) then Err TaskEvPre.E_FAIL
+   else TaskEvProofs.seqF who DecodeDefs.M_NOSV (TaskEvProofs.nosv_ws sx cs who (Some (i, j)) (Some (TaskEvPre.TaskAt i))) E w).
+Proof.
+  intros sx cs who me Hme v p i j w E. split; [|split].
+  - exact (TaskEvProofs.nosv_running_gen sx cs who v p i j w).
+  - exact (TaskEvProofs.nosv_stopped_gen sx cs who v p w).
+  - intros bp. exact (TaskEvProofs.nosv_switch_gen sx cs who v p bp i j w).
+Qed.
+Print Assumptions C07_task_channels_from_source.
+
+(* such a sequence of writes is the model's set_chans, and leaves the tasks alone *)
+Theorem C07_task_writes_are_set_chans : forall sx cs who m ws,
+  Forall (fun x => TaskEvProofs.inv (snd x)) ws -> forall s d,
+  let E := {| TaskEvPre.te_sx := sx; TaskEvPre.te_cs := cs |} in
+  match set_chans sx s who (map (fun x => (DecodeDefs.chan_of cs m (fst x), snd x (TaskEvProofs.W s d))) ws) d with
+  | Ok (s3, d3) => TaskEvProofs.seqF who m ws E (TaskEvProofs.W s d) = Ok (tt, TaskEvProofs.W s3 d3) /\ tasks s3 = tasks s
+  | Err _ => TaskEvProofs.seqF who m ws E (TaskEvProofs.W s d) = Err TaskEvPre.E_FAIL
+  end.
+Proof. exact TaskEvProofs.seqF_eq. Qed.
+Print Assumptions C07_task_writes_are_set_chans.
+
+(* pre_task on VTc / VTC: create_task, with the flags word of the C decoded into the model's four booleans *)
+Theorem C07_task_create_from_source : forall sx cs who (me : thread_info) st v p d, v = 67 \/ v = 99 -> (8 <= length p)%nat ->
+  let E := {| TaskEvPre.te_sx := sx; TaskEvPre.te_cs := cs |} in
+  match task_create sx st who DecodeDefs.M_NOSV (DecodeDefs.le_u32 p 0) (DecodeDefs.le_u32 p 4) (v =? 67) (negb (v =? 67)) (negb (v =? 67)) false with
+  | Ok s' => TaskNosv_gen.pre_task (TaskEvProofs.mk who DecodeDefs.M_NOSV v p) E (TaskEvProofs.W st d) = Ok (tt, TaskEvProofs.W s' d)
+  | Err _ => TaskNosv_gen.pre_task (TaskEvProofs.mk who DecodeDefs.M_NOSV v p) E (TaskEvProofs.W st d) = Err TaskEvPre.E_FAIL
+  end.
+Proof. exact TaskEvProofs.nosv_pre_task_create. Qed.
+Print Assumptions C07_task_create_from_source.
+Theorem C07_task_events_nanos6_from_source : forall sx cs who me, nth_error (s_threads sx) who = Some me ->
+  forall st th v p, nth_error (threads st) who = Some th -> TaskEvProofs.kinds v -> (4 <= length p)%nat ->
+  let E := {| TaskEvPre.te_sx := sx; TaskEvPre.te_cs := cs |} in
+  match task_event sx st who (DecodeDefs.nanos6_cfg cs) DecodeDefs.M_NANOS6 v (DecodeDefs.le_u32 p 0) 0 with
+  | Ok (st', d) => TaskNanos6_gen.pre_task (TaskEvProofs.mk who DecodeDefs.M_NANOS6 v p) E (TaskEvProofs.W st []) = Ok (tt, TaskEvProofs.W st' d)
+  | Err _ => exists e', TaskNanos6_gen.pre_task (TaskEvProofs.mk who DecodeDefs.M_NANOS6 v p) E (TaskEvProofs.W st []) = Err e' /\
+                        e' <> TaskEvPre.E_TRAP
+  end.
+Proof. exact TaskEvProofs.n6_task_events. Qed.
+Print Assumptions C07_task_events_nanos6_from_source.
+
+(* pre_task on 6Tc: exactly 8 bytes of payload, flags PAUSE | RELAX_NESTING (the old 6TC is accepted and ignored:
+   TaskEvProofs.n6_pre_task_old_create) *)
+Theorem C07_task_create_nanos6_from_source : forall sx cs who st p d, length p = 8%nat ->
+  let E := {| TaskEvPre.te_sx := sx; TaskEvPre.te_cs := cs |} in
+  match task_create sx st who DecodeDefs.M_NANOS6 (DecodeDefs.le_u32 p 0) (DecodeDefs.le_u32 p 4) false false true true with
+  | Ok s' => TaskNanos6_gen.pre_task (TaskEvProofs.mk who DecodeDefs.M_NANOS6 99 p) E (TaskEvProofs.W st d) = Ok (tt, TaskEvProofs.W s' d)
+  | Err _ => TaskNanos6_gen.pre_task (TaskEvProofs.mk who DecodeDefs.M_NANOS6 99 p) E (TaskEvProofs.W st d) = Err TaskEvPre.E_FAIL
+  end.
+Proof. exact TaskEvProofs.n6_pre_task_create. Qed.
+Print Assumptions C07_task_create_nanos6_from_source.
+(* ==== end of block (unit taskev) ==== *)
